@@ -275,12 +275,14 @@ def run_case(prog, cfg=None, faults=None, cleanups=None, hooks=False, record_eve
         for kind in P.OUTCOMES:
             if kind != "undefined":
                 reg.add_step_definition("step", "step {n:d} %s" % kind, make_step(kind))
-        if cfg.get("convert") or "'convert'" in repr(prog):
+        if cfg.get("convert") or "'convert" in repr(prog):
             # typed parameter whose converter raises -> MatchWithError (C02 'convert' outcome)
             from behave import register_type
 
             def bad(text):
-                raise ValueError("cannot convert %r" % text)
+                # the converter's exception class is part of the alphabet (zz/kk/aa/rr)
+                exc = {"kk": KeyError, "aa": AssertionError, "rr": RuntimeError}.get(text, ValueError)
+                raise exc("cannot convert %r" % text)
             bad.pattern = r"\w+"
             register_type(Bad=bad)
             reg.add_step_definition("step", "step {n:d} convert {x:Bad}", make_step("pass"))
